@@ -12,7 +12,7 @@ TInit == l = 1 /\ Init
 Keep == UNCHANGED <<nops, nrec, last>>
 TReset == IsEvent("Reset") /\ st' = Empty /\ step' = 0 /\ Keep
 Project(cs) == [n \in 1..Len(cs) |-> [k |-> cs[n].k, ijhead |-> TRUE, complnum |-> cs[n].complnum, sort |-> cs[n].sort,
-                                      state |-> cs[n].state, rec |-> cs[n].rec, mult |-> cs[n].mult]]
+                                      state |-> cs[n].state, rec |-> cs[n].rec, mult |-> cs[n].mult, skin |-> cs[n].skin]]
 After == EndStep(ApplyOps(st, Ev.ops))
 \* for a well with laterals the list must hold the specified connections, and a step that adds no
 \* connection must leave the order of the list as it was
@@ -28,7 +28,7 @@ StepOk == /\ Ev.res = "ok"
           /\ \A w \in FreeOrder : FreeOk(w)
 \* the specification's list of a well with laterals follows the observed order
 Observed(w) == [n \in 1..Len(Ev.obs[w]) |-> [k |-> Ev.obs[w][n].k, complnum |-> Ev.obs[w][n].complnum, sort |-> Ev.obs[w][n].sort,
-                                              state |-> Ev.obs[w][n].state, rec |-> Ev.obs[w][n].rec, mult |-> Ev.obs[w][n].mult]]
+                                              state |-> Ev.obs[w][n].state, rec |-> Ev.obs[w][n].rec, mult |-> Ev.obs[w][n].mult, skin |-> Ev.obs[w][n].skin]]
 TStep == /\ IsEvent("Step") /\ StepOk /\ step' = step + 1 /\ Keep
          /\ st' = [After EXCEPT !.conns = [w \in Wells |-> IF w \in FreeOrder THEN Observed(w) ELSE After.conns[w]]]
 TDiag == /\ l <= Len(TraceLog) /\ Ev.e = "Step" /\ ~StepOk
